@@ -10,6 +10,7 @@ import Hls.Props.C03
 #print axioms Hls.C03.media_roundtrip_general
 #print axioms Hls.C03.media_fixed_point_general
 #print axioms Hls.C03.media_canonical_text
+#print axioms Hls.C03.media_any_layout
 #print axioms Hls.C03.example_media
 #print axioms Hls.C03.k3_repaired
 #print axioms Hls.C03.k2_counterexample
